@@ -386,7 +386,11 @@ var openCalls = map[string]shim{
 }
 
 func openFunc(file, recv, name string, fields map[string]fieldSpec, consts map[string]string, extra map[string]shim) transFunc {
-	return transFunc{file: file, recv: recv, name: name, lean: name, fields: merge2(openFields, fields), types: openTypes,
+	lean := name
+	if name == "open" { // a Lean keyword
+		lean = "openAll"
+	}
+	return transFunc{file: file, recv: recv, name: name, lean: lean, fields: merge2(openFields, fields), types: openTypes,
 		structs: openStructs, consts: consts, calls: merge(openCalls, extra)}
 }
 
